@@ -170,7 +170,7 @@ pub fn all() -> Vec<PropDef> {
         PropDef {
             id: "C12",
             level: "exploration",
-            rule: "exhaustive table: every VER list of length 0..=5 (quick) / 0..=6 (thorough) over {draft-13, 0, 1, 0x8000000b, 0x8000000d} and 'VER absent', each x SRV absent/correct/wrong; for [draft-13]: all 256 single-bit SRV corruptions, SRV lengths {0,4,28,36,64}, another server's SRV; requests otherwise standard, 48 per batch, one per socket; oracle = truth table of the property + strict verification of every reply (SREP.VER = draft-13, sorted VERS containing it). Non-trivial = list of length >= 2 with draft-13 at position >= 2, or any SRV corruption; distinct by (list, SRV)",
+            rule: "exhaustive table: every VER list of length 0..=6 over {draft-13, 0, 1, 0x8000000b, 0x8000000d} and 'VER absent', each x SRV absent/correct/wrong; for [draft-13]: all 256 single-bit SRV corruptions, SRV lengths {0,4,28,36,64}, another server's SRV; requests otherwise standard, 48 per batch, one per socket; oracle = truth table of the property + strict verification of every reply (SREP.VER = draft-13, sorted VERS containing it). Non-trivial = list of length >= 2 with draft-13 at position >= 2, or any SRV corruption; distinct by (list, SRV)",
             assumptions: &["draft-13 at list position 5 or 6 may be answered or not (if answered the reply must verify)"],
             shards: s16,
             timeout_s: t_std,
@@ -220,7 +220,7 @@ pub fn all() -> Vec<PropDef> {
         PropDef {
             id: "C19",
             level: "exploration",
-            rule: "real server (workers {1,4,16}, client_stats off/on) receives SIGINT or SIGTERM after a swept delay (0..=300 ms, around 100 ms and 1 s) while idle, under k closed-loop clients, or under an open-loop flood (valid / invalid / mixed) that keeps the receive queue non-empty; fixed grid + proptest plans; oracle: exit status 0 within 5 s, no panic text, every reply received before exit strictly valid; if the deadline passes the load is stopped to tell 'wedged by load' from 'never exits'. Non-trivial = signal delivered while requests were in flight (flood, or a reply within 5 ms of the signal); distinct by (workers, stats, signal, load, delay bucket)",
+            rule: "real server (workers {1,4,16}, client_stats off/on) receives SIGINT or SIGTERM after a swept delay (0..=300 ms, around 100 ms and 1 s; idle periods up to 12 s since start-up or since the last request) while idle, under k closed-loop clients, or under an open-loop flood (valid / invalid / mixed) that keeps the receive queue non-empty; fixed grid + proptest plans; oracle: exit status 0 within 5 s, no panic text, every reply received before exit strictly valid; if the deadline passes the load is stopped to tell 'wedged by load' from 'never exits'. Non-trivial = signal delivered while requests were in flight (flood, or a reply within 5 ms of the signal); distinct by (workers, stats, signal, load, delay bucket)",
             assumptions: &["signal delivery instants are sampled by sweeping the delay; the exact interleaving is not controlled", "5 s is >= 4x the designed worst case (100 ms poll + 1 s reporter sleep)"],
             shards: |_| 6,
             timeout_s: |t| t.pick(400, 3600),
